@@ -46,7 +46,14 @@ pub fn check_table(c: &TableCase) -> CaseResult {
         t.add_constraints(b.clone());
     }
     // builder form must agree with repeated add_constraints when there is one batch
-    let t2 = if c.batches.len() == 1 { Some(SpatioTemporalConstraints::default().constraints(&c.batches[0])) } else { None };
+    // the by-value builder, chained once per batch, must configure the same table
+    let t2 = {
+        let mut b = SpatioTemporalConstraints::default();
+        for batch in &c.batches {
+            b = b.constraints(batch);
+        }
+        Some(b)
+    };
     let ps = probes();
     let mut between = false;
     let configured: std::collections::BTreeSet<usize> = c.batches.iter().flatten().map(|(g, _)| *g).collect();
